@@ -9,6 +9,7 @@ import (
 	"encoding/binary"
 	"fmt"
 	"hash/fnv"
+	"sort"
 	"sync"
 	"testing"
 	"time"
@@ -220,6 +221,7 @@ type c11client struct {
 	got      [][]byte
 	sendErrs []string
 	sentOK   [][]byte // payloads whose Send returned nil, in call order
+	tried    [][]byte // every payload handed to Send
 }
 
 func execC11(t *testing.T, w *core.World, p *run.Plan, r *run.Result) {
@@ -285,23 +287,42 @@ func execC11(t *testing.T, w *core.World, p *run.Plan, r *run.Result) {
 					}
 				}()
 				t0 := w.Now()
-				for k, op := range sends {
-					if d := time.Duration(op.AtMs)*time.Millisecond - (w.Now() - t0); d > 0 {
-						time.Sleep(d)
-					}
-					payload := c11payload(p.Seed, ci*1000+k, op.A)
-					pk, err := liteclient.NewPacket(append([]byte{}, payload...))
-					if err == nil {
-						err = conn.Send(pk)
-					}
-					cl.mu.Lock()
-					if err != nil {
-						cl.sendErrs = append(cl.sendErrs, err.Error())
-					} else {
-						cl.sentOK = append(cl.sentOK, payload)
-					}
-					cl.mu.Unlock()
+				// free-running (-race) mode: several goroutines send on the same connection at once
+				nsend := 1
+				if p.Free {
+					nsend = 3
 				}
+				var wg sync.WaitGroup
+				for sidx := 0; sidx < nsend; sidx++ {
+					sidx := sidx
+					wg.Add(1)
+					go func() {
+						defer wg.Done()
+						w.Tag(fmt.Sprintf("client-%d-tx%d", ci, sidx))
+						for k, op := range sends {
+							if k%nsend != sidx {
+								continue
+							}
+							if d := time.Duration(op.AtMs)*time.Millisecond - (w.Now() - t0); d > 0 {
+								time.Sleep(d)
+							}
+							payload := c11payload(p.Seed, ci*1000+k, op.A)
+							pk, err := liteclient.NewPacket(append([]byte{}, payload...))
+							if err == nil {
+								err = conn.Send(pk)
+							}
+							cl.mu.Lock()
+							cl.tried = append(cl.tried, payload)
+							if err != nil {
+								cl.sendErrs = append(cl.sendErrs, err.Error())
+							} else {
+								cl.sentOK = append(cl.sentOK, payload)
+							}
+							cl.mu.Unlock()
+						}
+					}()
+				}
+				wg.Wait()
 			}()
 		})
 	}
@@ -390,7 +411,12 @@ func execC11(t *testing.T, w *core.World, p *run.Plan, r *run.Result) {
 				if st.frErr != nil || st.hsErr != nil {
 					w.Violate("C11.b-c2s", "C11.b|none|server-rejects", fmt.Sprintf("client %d: spec server rejected the client's stream: %v", ci, stErr(st)))
 				}
-				if d := seqDiff(cl.sentOK, st.received); d != "" {
+				sentCmp, recvCmp := cl.sentOK, st.received
+				if p.Free {
+					// concurrent senders: the server sees some interleaving of them; compare as multisets
+					sentCmp, recvCmp = sortedCopy(cl.sentOK), sortedCopy(st.received)
+				}
+				if d := seqDiff(sentCmp, recvCmp); d != "" {
 					w.Violate("C11.b-c2s", "C11.b|none|payload", fmt.Sprintf("client %d -> server: %s", ci, d))
 				}
 				if st.badPing != "" {
@@ -458,7 +484,20 @@ func execC11(t *testing.T, w *core.World, p *run.Plan, r *run.Result) {
 			// and everything before the altered frame must have arrived (checks the client's framing from the other side).
 			if st != nil && f.Frame > 0 {
 				k := len(st.received)
-				if k > len(cl.sentOK) {
+				if p.Free {
+					// concurrent senders: any order, but never a payload nobody handed to Send
+					pool := map[string]int{}
+					for _, b := range cl.tried {
+						pool[string(b)]++
+					}
+					for _, b := range st.received {
+						if pool[string(b)] == 0 {
+							w.Violate("C11.d-c2s", "C11.d|"+tag, fmt.Sprintf("server extracted a %d-byte payload that was never sent", len(b)))
+							break
+						}
+						pool[string(b)]--
+					}
+				} else if k > len(cl.sentOK) {
 					w.Violate("C11.d-c2s", "C11.d|"+tag, fmt.Sprintf("server extracted %d payloads, client sent %d", k, len(cl.sentOK)))
 				} else if d := seqDiff(cl.sentOK[:k], st.received); d != "" {
 					w.Violate("C11.d-c2s", "C11.d|"+tag, "server extracted a payload that was never sent: "+d)
@@ -476,6 +515,12 @@ func execC11(t *testing.T, w *core.World, p *run.Plan, r *run.Result) {
 	hs := fnv.New64a()
 	fmt.Fprintf(hs, "%v|%v|%d", p.Faults, w.Net.Fired, len(p.Ops))
 	w.Visit(hs.Sum64())
+}
+
+func sortedCopy(in [][]byte) [][]byte {
+	out := append([][]byte{}, in...)
+	sort.Slice(out, func(i, j int) bool { return bytes.Compare(out[i], out[j]) < 0 })
+	return out
 }
 
 func dirName(d int) string {
